@@ -161,6 +161,8 @@ type c21Case struct {
 	client   *gridClient
 	prepare  func(u *tls.UConn) error
 	compLen  int // set by runC21: size of the compressed stream that was sent
+	// clientAuth: the server also sends a CertificateRequest (the message before its certificate)
+	clientAuth bool
 }
 
 // runC21 performs one handshake in which the server's Certificate is replaced by a CompressedCertificate.
@@ -168,6 +170,9 @@ func runC21(cs *c21Case) (hs *peer.HS, sentBody []byte, replaced bool) {
 	cert := c21Certs()[cs.certName]
 	scfg := peer.ServerConfig(cert)
 	scfg.MinVersion = tls.VersionTLS13
+	if cs.clientAuth {
+		scfg.ClientAuth = tls.RequestClientCert
+	}
 	hk := &connHooks{}
 	hk.Out = func(n int, t uint8, d []byte) []byte {
 		if t != 11 || replaced {
@@ -284,8 +289,13 @@ func c21Encodings() *explore.Scenario {
 			e := encs[x.Choose("encoder", len(encs))]
 			cn := certNames[x.Choose("cert", len(certNames))]
 			adv := adverts[e.alg][x.Choose("advert", 3)]
-			cs := c21Case{certName: cn, enc: e, advert: adv, declared: func(n int) int { return n }, expect: "ok"}
-			what := fmt.Sprintf("%s cert=%s advertised=%v", e.name, cn, adv)
+			ca := x.Choose("srv.clientauth", 2) == 1
+			if ca && cn != "small" {
+				r.Obs = "n/a" // the client-certificate-request axis is run with the small certificate only
+				return
+			}
+			cs := c21Case{certName: cn, enc: e, advert: adv, declared: func(n int) int { return n }, expect: "ok", clientAuth: ca}
+			what := fmt.Sprintf("%s cert=%s advertised=%v clientauth=%v", e.name, cn, adv, ca)
 			hs, body, rep := runC21(&cs)
 			if !rep {
 				r.Violate("INFRA|c21-no-certificate-message", "%s: no Certificate message seen (client %v)", what, hs.CErr)
@@ -496,7 +506,7 @@ func c21Scenarios(thorough bool) []*explore.Scenario {
 func init() {
 	register(&Prop{ID: "C21", Level: "exploration", Variant: "A", Scenarios: c21Scenarios,
 		Run: func(c *explore.Check, thorough bool) {
-			c.Rule = "the server's Certificate message is replaced (verif hook, before it enters the server transcript) by a CompressedCertificate: every encoder structure of a finite menu (zlib 4 levels, brotli 3 qualities x 2 windows, zstd 3 levels x 2 windows + EncodeAll, each x flush {never, every 7 B, every 512 B}) x certificate message size {1 cert, 3-cert chain, 60 KiB, 250 KiB} x advertised list {only that algorithm, two, all three} must be recovered exactly; declared length {-1,-100,0,+1,+100,2^24-1}, unadvertised algorithm and extension-removed-after-build must be refused (bad_certificate); every byte XOR 0xff and every truncation of the compressed stream of the small certificate must be refused or decode to the identical certificates; parrots that advertise compression x each algorithm. distinct = case"
+			c.Rule = "the server's Certificate message is replaced (verif hook, before it enters the server transcript) by a CompressedCertificate: every encoder structure of a finite menu (zlib 4 levels, brotli 3 qualities x 2 windows, zstd 3 levels x 2 windows + EncodeAll, each x flush {never, every 7 B, every 512 B}) x certificate message size {1 cert, 3-cert chain, 60 KiB, 250 KiB} x advertised list {only that algorithm, two, all three} (and, for the small certificate, with a CertificateRequest preceding it) must be recovered exactly; declared length {-1,-100,0,+1,+100,2^24-1}, unadvertised algorithm and extension-removed-after-build must be refused (bad_certificate); every byte XOR 0xff and every truncation of the compressed stream of the small certificate must be refused or decode to the identical certificates; parrots that advertise compression x each algorithm. distinct = case"
 			c.Assumptions = []string{"encoders: compress/zlib, andybalholm/brotli, klauspost/compress/zstd from the module cache", "the hook position keeps client and server transcripts in agreement (both hash the CompressedCertificate message)"}
 			runAll(c, c21Scenarios(thorough), 0)
 			c.Gate(c.Total.Counters["recovered_exactly"] > 50, "non-vacuity: %d exact recoveries", c.Total.Counters["recovered_exactly"])
